@@ -58,11 +58,23 @@ def mk_case(kind, n, edges, labels, extra_ids=()):
             "labels": [LABEL_IDS[l] for l in labels]}
 
 
-def named_ids(errors, word):
+def named_ids(errors, word, labels=None):
+    """the tracklet / lineage id each message names: the documented form `<word> <id>: ...`; when the wording differs and the labels of
+    the case are given, the first integer in the message that is one of the labels (the property asks that the message NAMES the
+    offender, not for a wording)"""
     out = []
     for e in errors:
         m = re.match(rf"{word} (-?\d+):", e)
-        out.append(int(m.group(1)) if m else None)
+        if m:
+            out.append(int(m.group(1)))
+            continue
+        found = None
+        if labels is not None:
+            for tok in re.findall(r"-?\d+", e):
+                if int(tok) in labels:
+                    found = int(tok)
+                    break
+        out.append(found)
     return out
 
 
